@@ -22,7 +22,7 @@ import (
 
 var keys = []evgen.Key{
 	evgen.NewKey("a.org", "ed25519:1", 1),
-	evgen.NewKey("a.org", "ed25519:a_b", 2), // same entity, second key ID
+	evgen.NewKey("a.org", "ed25519:a_B+/-.0", 2), // same entity, second key ID (a key ID is an opaque string: base64 and device-style IDs carry + / - .)
 	evgen.NewKey("b.org:8448", "ed25519:1", 3),
 }
 var foreign = evgen.NewKey("c.org", "ed25519:zz", 9)
